@@ -29,7 +29,8 @@ ASSUMPTIONS = [
     "as C01; compiled without contraction the strategies perform the same floating-point "
     "operations, so variants must agree with the baseline to 8 ulp (plus the shadow's spread)",
 ]
-MIN_MONITOR = {"mon.variant_value_oracle": 50, "mon.structure_differs": 20}
+MIN_MONITOR = {"mon.variant_value_oracle": 50, "mon.structure_differs": 20,
+               "mon.variants_interpreted": 20}
 SHARD_TIMEOUT = {"quick": 900, "thorough": 7200}
 N_PROGRAMS = {"quick": 500, "thorough": 12000}
 N_VARIANTS = {"quick": 6, "thorough": 14}
@@ -235,7 +236,20 @@ def run_variant(spec: dict[str, Any], asg: dict[str, list[list[Any]]] | None, st
     except ctarget.CodegenFailure as f:
         return {"status": "fail", "stage": f.stage, "exc": f.exc, "detail": f.detail, "bp": bp}
     rr = ctarget.run(cp, bp, b.env(vset))
+    # kernel-level interpretation in an adversarial dependency-compatible order: a store
+    # whose consumers lack the dependency edge shows up as read-before-write
+    rbw: list[Any] = []
+    ioob: list[Any] = []
+    iout: dict[str, np.ndarray] | None = None
+    try:
+        from vf.exec import lpinterp
+        it = lpinterp.interpret(bp, b.env(vset))
+        rbw, iout = it.rbw, it.outputs()
+        ioob = [o for o in it.oob if not o.get("data_dependent")]
+    except Exception:  # noqa: BLE001  (unsupported kernel forms)
+        pass
     return {"status": "ok", "outputs": rr.outputs, "structure": structure(bp), "bp": bp,
+            "rbw": rbw, "interp_outputs": iout, "interp_oob": ioob,
             "applied": applied, "decl": {k: (tuple(int(s) for s in v.shape), str(v.dtype))
                                           for k, v in outs.items()},
             "canary": rr.canary_violations}
@@ -254,6 +268,23 @@ def compare_variant(spec: dict[str, Any], base: dict[str, Any], var: dict[str, A
         out.append(("C07:declared-shape-dtype", "declared shapes/dtypes changed", {}))
     if var["canary"]:
         out.append(("C07:out-of-bounds-write", f"buffers {var['canary']}", {}))
+    if var.get("rbw") and not base.get("rbw"):
+        out.append(("C07:read-before-write", "under this tag assignment an instruction reads "
+                    "an element no instruction it depends on has written",
+                    {"events": var["rbw"][:3]}))
+    if var.get("interp_oob") and not base.get("interp_oob"):
+        out.append(("C07:kernel-oob-access", "tagged variant subscripts outside an array",
+                    {"events": var["interp_oob"][:3]}))
+    if var.get("interp_outputs") is not None:
+        for name, iv in var["interp_outputs"].items():
+            b0 = base["outputs"].get(name)
+            if b0 is not None and iv.shape == b0.shape and not compare.close_ulps(
+                    iv.astype(b0.dtype), b0, 8.0, err=2.0 * spread[name]) and \
+                    compare.close_ulps(var["outputs"][name], b0, 8.0, err=2.0 * spread[name]):
+                out.append(("C07:interp-value-vs-baseline", f"output {name}: the tagged kernel "
+                            "interpreted in a dependency-compatible order differs from the "
+                            "baseline (the compiled schedule happens to agree)",
+                            {"output": name}))
     for name, got in var["outputs"].items():
         b0 = base["outputs"][name]
         if got.shape != b0.shape or got.dtype != b0.dtype:
@@ -379,6 +410,8 @@ def check_case(case: dict[str, Any], col: common.Collector) -> None:
                           {}))
         else:
             col.count("mon.variant_value_oracle", len(var["outputs"]))
+            if var.get("interp_outputs") is not None:
+                col.count("mon.variants_interpreted")
             for kk, vv in var.get("applied", {}).items():
                 col.histo("tags_applied", kk, vv)
             probs = compare_variant(spec, base, var, ref, spread)
